@@ -336,6 +336,10 @@ class FortranAST:
         if any(name.lower() == fqsn for name in self.public_list):
             obj.set_visibility(1)
 
+    def resolve_inheritance(self, obj_tree, link_version):
+        for inherit_obj in self.inherit_objs:
+            inherit_obj.resolve_inherit(obj_tree, inherit_version=link_version)
+
     def resolve_links(self, obj_tree, link_version):
         # Type lookups are cached on first use, the type may since have been
         # replaced by a new version of the file that declares it
